@@ -614,6 +614,13 @@ func (x *exec) havocForLoop(st *pstate, h *ssa.BasicBlock) {
 func (x *exec) havocWrites(st *pstate, w *writeSet, why string) {
 	if w.all {
 		cur := x.env.Next(st.heap)
+		_, allocChanges := w.heaps["allocated"]
+		alloc := x.env.heapVar(st.heap, "allocated", BV64)
+		defer func() {
+			if !allocChanges {
+				st.heap["allocated"] = alloc // the allocation counter changes only through counted allocations
+			}
+		}()
 		x.env.havocAll(st.heap)
 		nv := x.env.Fresh("next$"+why, smt.Int)
 		st.heap["next"] = nv
@@ -708,6 +715,16 @@ func (x *exec) assignOrdinals() {
 		case *ssa.Panic:
 			name(in, "panic")
 		case *ssa.Call:
+			if f := in.Call.StaticCallee(); f != nil {
+				switch FuncKey(f) {
+				case "sync.(*Mutex).Lock":
+					name(in, "lock")
+					continue
+				case "sync.(*Mutex).Unlock":
+					name(in, "unlock")
+					continue
+				}
+			}
 			name(in, "call")
 		case *ssa.Defer:
 			name(in, "defer")
